@@ -4,8 +4,8 @@
   SfModel/SmallSession.lean; helpers SfProofs/SmallSession.lean, SfProofs/Svx.lean).  Property theorems only.
 
   Proved here: the closed and header-update images of every session in closed form (every header byte, incl. the NAME
-  chunk with the file name), their size fields, independence of the caller's frames value, the 16-bit rate quantiser and
-  the witness of KF-RATE16-WRAP.  The reader `parse` is validated against the library by the correspondence campaign
+  chunk with the file name), their size fields, independence of the caller's frames value, the 16-bit rate quantiser (saturating
+  since the repair of KF-RATE16-WRAP; the wrap of before is `svx_rate_old_rule`).  The reader `parse` is validated against the library by the correspondence campaign
   (vlib/small1.py) and evaluated here on concrete closed files; a universal `parse (closedBytes …)` theorem over the chunk
   loop is not part of this file (see the report).
 -/
@@ -41,7 +41,7 @@ theorem svx_size_fields (c : Cfg) (hwf : c.wf) (stale : Nat) (ops : List WOp) (b
   refine ⟨by rw [List.length_append, hl, hD], ?_, ?_⟩
   · have e : hdr c (D / c.bw) ((hdrLen c + D : Nat) : Int) ((D : Nat) : Int) ++ opsData ops =
         mk4 "FORM" ++ (be32 (((hdrLen c + D : Nat) : Int) - 8) ++ ((if c.bytewidth = 1 then mk4 "8SVX" else mk4 "16SV") ++
-        mk4 "VHDR" ++ be32 20 ++ be32 ((D / c.bw : Nat) : Int) ++ be32 0 ++ be32 0 ++ be16 c.sr ++ [1] ++ [0] ++
+        mk4 "VHDR" ++ be32 20 ++ be32 ((D / c.bw : Nat) : Int) ++ be32 0 ++ be32 0 ++ be16 (rateField c.sr) ++ [1] ++ [0] ++
         be32 (if c.bytewidth = 1 then 0xFF else 0xFFFF) ++ (if c.ch = 2 then mk4 "CHAN" ++ be32 4 ++ be32 6 else []) ++
         mk4 "NAME" ++ strField c.name ++ mk4 "ANNO" ++ strField annotation ++ mk4 "BODY" ++ be32 (if ((D : Nat) : Int) < 0 then 0 else ((D : Nat) : Int)) ++ opsData ops)) := by
       unfold hdr
@@ -76,25 +76,46 @@ theorem svx_snapshot_is_closed_file (c : Cfg) (hwf : c.wf) (stale : Nat) (ops : 
 
 /-! ### the 16-bit rate field -/
 
-/-- what C04 asks of the rate field: every rate a caller may pass re-opens as its 16-bit residue -/
-def svx_rate_full : Prop := ∀ sr : Nat, 1 ≤ sr → sr ≤ 0x7FFFFFFF → rateQ sr ≠ none
+/-- what C04 asks of a rate rule `q`: every rate a caller may pass produces a file that can be re-opened, and a rate the
+    16-bit field can hold is reported exactly -/
+def rateFull (q : Nat → Option Nat) : Prop := ∀ sr : Nat, 1 ≤ sr → sr ≤ 0x7FFFFFFF → q sr ≠ none ∧ (sr ≤ 65535 → q sr = some sr)
 
-/-- the class of the known finding KF-RATE16-WRAP -/
+def svx_rate_full : Prop := rateFull rateQ
+
+/-- the class of the repaired defect KF-RATE16-WRAP -/
 def KF.rate16Wrap (sr : Nat) : Prop := sr % 65536 = 0
 instance (sr : Nat) : Decidable (KF.rate16Wrap sr) := by unfold KF.rate16Wrap; infer_instance
 
-theorem svx_rate_full_fails : ¬ svx_rate_full := fun h => h 65536 (by decide) (by decide) (by decide)
-
-/-- **svx_rate_partial.**  Outside the class the quantiser is the 16-bit residue: exact below 65536 -/
-theorem svx_rate_partial (sr : Nat) (hk : ¬ KF.rate16Wrap sr) :
-    rateQ sr = some (sr % 65536) ∧ (sr < 65536 → rateQ sr = some sr) ∧ 1 ≤ sr % 65536 := by
-  unfold KF.rate16Wrap at hk
+/-- **svx_rate** (full strength since the repair of KF-RATE16-WRAP).  The quantiser saturates: exact up to 65535,
+    65535 above; the field is never 0 for a rate ≥ 1, so every closed file can be re-opened. -/
+theorem svx_rate (sr : Nat) (h1 : 1 ≤ sr) :
+    rateQ sr = some (min sr 65535) ∧ (sr ≤ 65535 → rateQ sr = some sr) ∧ (65536 ≤ sr → rateQ sr = some 65535) ∧ rateQ sr ≠ none := by
+  have hf : rateField sr = min sr 65535 := rfl
+  have hne : ¬ rateField sr = 0 := by rw [hf]; omega
   unfold rateQ
-  rw [if_neg hk]
-  refine ⟨rfl, fun h => by rw [Nat.mod_eq_of_lt h], by omega⟩
+  rw [if_neg hne, hf]
+  refine ⟨rfl, fun h => ?_, fun h => ?_, by simp⟩
+  · rw [Nat.min_eq_left h]
+  · rw [Nat.min_eq_right (by omega)]
 
-/-- the rate bytes of the header are the big-endian 16-bit residue -/
-theorem svx_rate_field (sr : Nat) : ofBE (be16 (sr : Int)) = sr % 65536 := by rw [ofBE_be16, wrapU_mod]
+theorem svx_rate_full_holds : svx_rate_full := fun sr h1 _ => ⟨(svx_rate sr h1).2.2.2, (svx_rate sr h1).2.1⟩
+
+example : rateQ 44100 = some 44100 ∧ rateQ 65536 = some 65535 ∧ rateQ 0x7FFFFFFF = some 65535 := by decide
+
+/-- **svx_rate_old_rule.**  Before the repair the field held the low 16 bits: inside the class it was 0 (a file that
+    cannot be re-opened), outside the class it was the residue — exact only below 65536. -/
+theorem svx_rate_old_rule (sr : Nat) :
+    (KF.rate16Wrap sr → rateQOld sr = none) ∧ (¬ KF.rate16Wrap sr → rateQOld sr = some (sr % 65536)) := by
+  unfold KF.rate16Wrap rateQOld rateFieldOld
+  exact ⟨fun h => by rw [if_pos h], fun h => by rw [if_neg h]⟩
+
+theorem svx_rate_full_old_rule_fails : ¬ rateFull rateQOld := fun h => (h 65536 (by decide) (by decide)).1 (by decide)
+
+/-- the rate bytes of the header are the big-endian saturated rate -/
+theorem svx_rate_field (sr : Nat) : ofBE (be16 (rateField sr : Int)) = min sr 65535 := by
+  rw [ofBE_be16, wrapU_mod]
+  have : rateField sr = min sr 65535 := rfl
+  rw [this]; omega
 
 /-! ### concrete sessions through the reader -/
 
@@ -103,13 +124,13 @@ def exVio : Cfg := ⟨0x01, 2, 1, 96000, []⟩
 def exWrap : Cfg := ⟨0x01, 0, 1, 131072, []⟩
 def exOps : List WOp := [.write [0, 1, 0, 2] false, .update, .write [0, 3] true]
 
-/-- a 16-bit session with a file name: 3 frames; an 8-bit session at 96000 Hz re-opens at 96000 mod 65536;
-    a rate that is a multiple of 65536 produces a file that cannot be re-opened (KF-RATE16-WRAP) -/
+/-- a 16-bit session with a file name: 3 frames; an 8-bit session at 96000 Hz re-opens at 65535 Hz (the field saturates);
+    a rate that is a multiple of 65536 — the class of the repaired KF-RATE16-WRAP — re-opens at 65535 Hz as well -/
 theorem svx_reopen_examples :
     exCfg.wf ∧ parse (closedBytes (spec exCfg) 99 exOps) = .ok ⟨1, 0x060002, 44100, 3⟩ ∧
-    exVio.wf ∧ parse (closedBytes (spec exVio) 0 [.write [1, 2, 3] false]) = .ok ⟨1, 0x060001, 30464, 3⟩ ∧
-    parse (snapshotBytes (spec exVio) 5 [.write [1, 2, 3] false]) = .ok ⟨1, 0x060001, 30464, 3⟩ ∧
-    exWrap.wf ∧ KF.rate16Wrap exWrap.sr ∧ parse (closedBytes (spec exWrap) 0 [.write [1, 2, 3] false]) = .err := by decide +kernel
+    exVio.wf ∧ parse (closedBytes (spec exVio) 0 [.write [1, 2, 3] false]) = .ok ⟨1, 0x060001, 65535, 3⟩ ∧
+    parse (snapshotBytes (spec exVio) 5 [.write [1, 2, 3] false]) = .ok ⟨1, 0x060001, 65535, 3⟩ ∧
+    exWrap.wf ∧ KF.rate16Wrap exWrap.sr ∧ parse (closedBytes (spec exWrap) 0 [.write [1, 2, 3] false]) = .ok ⟨1, 0x060001, 65535, 3⟩ := by decide +kernel
 
 example : ofBE (slice (closedBytes (spec exCfg) 99 exOps) 4 4) = 104 ∧ (closedBytes (spec exCfg) 99 exOps).length = 112 ∧
     closedBytes (spec exCfg) 0 exOps = closedBytes (spec exCfg) 123456 exOps := by decide +kernel
